@@ -14,7 +14,7 @@ import (
 func init() {
 	fw.Register(&fw.Check{
 		ID: "C10", Level: "model_checking",
-		Rule:   "documents = JSIGHT + closed selections of 1..2 (quick) / 1..3 (thorough) pool blocks whose closure has <= 5 (quick) / 6 (thorough) top-level declarations; every top-level declaration with children is written with explicit parentheses (self-delimiting); ALL permutations of the declarations after JSIGHT are run and compared with the first order; non-trivial = accepted document with >= 2 declarations; distinct = distinct permuted texts",
+		Rule:   "documents = JSIGHT + closed selections of 1..2 (quick) / 1..3 (thorough) pool blocks whose closure has <= 5 (quick) / 6 (thorough) top-level declarations; every top-level declaration with children is written with explicit parentheses (self-delimiting); ALL permutations of the declarations after JSIGHT are run and compared with the first order; non-trivial = accepted document with >= 2 declarations; distinct = distinct permuted texts ; and vice versa: every single-fault document of C11 that the scan phase reads (delivered directly), under ALL orders of its top-level declarations (<= 4) or all transpositions (<= 6): the verdict stays 'rejected'",
 		Assume: []string{"the order of interaction ids inside a tag entry follows declaration order by design and is compared as a set; every other byte of every entry must be identical"},
 		Run:    runC10, QuickCap: 6 * time.Minute, ThoroughCap: 40 * time.Minute,
 	})
